@@ -159,7 +159,13 @@ def execute(case: Dict[str, Any], M: Optional[Model] = None, built: Any = None, 
                         if case.get("small_loop_pool"):
                             # the user's loop has a tiny default executor: tawazi has its own pool, so this must not matter
                             asyncio.get_running_loop().set_default_executor(sched.CtlPool(max_workers=1))
-                        return await target(*args)
+                        try:
+                            return await target(*args)
+                        finally:
+                            # the user's loop keeps running after the await (also after a failed one): whatever
+                            # tawazi left scheduled on it gets its turn
+                            for _ in range(4):
+                                await asyncio.sleep(0)
 
                     out.value = asyncio.run(main())
                 else:
